@@ -123,7 +123,7 @@ def calls(lines):
 
 def parse_t(s):
     """'-' -> None ; 'o>d:p' -> (o, d, p)"""
-    if s in (None, "-"): return None
+    if s is None or s.startswith("-"): return None
     od, p = s.split(":"); o, d = od.split(">")
     return (int(o), int(d), p)
 
@@ -359,7 +359,7 @@ def mon_C07_payload(lines, c):
             last_cb = l
             if l.meth in T.GUARD:
                 pend = parse_t(l.f.get("pend"))
-                if pend is not None and Q.get(i) is not None and l.f.get("req") == "-" and pend != Q[i]:
+                if pend is not None and Q.get(i) is not None and l.f.get("req", "-").startswith("-") and pend != Q[i]:
                     return idx, "guard sees pending %s, the request evaluated was made as %s" % (l.f.get("pend"), Q[i])
                 for fld in ("pend", "cur"):
                     t = parse_t(l.f.get(fld))
@@ -706,7 +706,7 @@ def mon_C17(lines, c):
             if pend is not None and l.inst == pend[0]:
                 src = last.get(pend[1])
                 if src is not None:
-                    a = l.raw.split(" ", 2)[2]; b = src.raw.split(" ", 2)[2]
+                    a = l.raw.split(" ", 2)[2]; b = src.raw.split(" ", 2)[2]          # (includes cnts=: the data members of the state objects)
                     if a != b: return idx, "the copy reports [%s], the original [%s]" % (a, b)
                 pend = None
             last[l.inst] = l
